@@ -75,6 +75,18 @@ func fallbackOn(sc *scn.Scenario, em func(vt.Ev), kind string) {
 	ref := promql.NewEngine(run.PromOpts(sc.Dur(sc.LB)))
 	rq, rerr := run.Create(ref, run.Store(sc), sc)
 	em(vt.Ev{"ev": "ref", "ok": rerr == nil})
+	// the construct the query text was built around (a vector or scalar expression), created on its own with
+	// the fallback enabled: whether it is supported is decided "from the expression alone"
+	if part := sc.CfgStr("part", ""); part != "" && part != q && !distributed {
+		psc := *sc
+		psc.Q = part
+		var peng run.QueryEngine = engine.New(run.EngineOpts(sc, "default", false, nil))
+		pq, perr := run.Create(peng, run.Store(sc), &psc)
+		em(vt.Ev{"ev": "part", "q": part, "ok": perr == nil, "path": run.PathOf(pq)})
+		if perr == nil {
+			pq.Close()
+		}
+	}
 	var rres run.CResult
 	if rerr == nil {
 		rres = run.Canon(rq.Exec(context.Background()))
